@@ -18,7 +18,8 @@ EXPLANATION = (
     'included) and predict_rdm carries the model\'s pattern descriptors; (EXH) model_from_dict has an arm for every Model '
     'subclass and to_dict writes what it reads; (SHAPE) positivity by squaring, unit-norm normalisation, interpolation '
     'weights (w, 1-w) on adjacent RDMs, argmin/argmax over the list accumulated in the same loop; (PURE) fitters do not '
-    'write model or data. Optimality against all competitors and numeric unit norm are NOT decided.')
+    'write model or data. Optimality against all competitors and numeric unit norm are NOT decided.'
+    ' Round 6: (LATE-BIND) functions created in a loop do not outlive the iteration whose loop variable they read.')
 ASSUMPTIONS = ['np.linalg.solve / scipy minimize semantics are not modelled (value clauses)',
                'a parameter of the same name in caller and callee denotes the same quantity']
 FLOOR = 60
